@@ -143,5 +143,9 @@ Definition jsaved_agrees (ops : list jop) : Prop :=
   let LR := snd (js_run [] [] ops) in
   kv (lst st) = encode (fst LR) /\ kv (rst st) = encode (snd LR) /\ jkv st = jenc (fst LR) (snd LR).
 
+(** every history inside the guard with clauses [c] (the final join.Save
+    included) answers like the maps and leaves exactly the maps' records and the
+    relational join's index records *)
 Definition jrefines (c : clauses) : Prop :=
-  forall ops, jsafe_with c ops = true -> jerrs_agree ops /\ jsaved_agrees ops.
+  forall ops, jsafe_with c (ops ++ [JSave]) = true ->
+    jerrs_agree (ops ++ [JSave]) /\ jsaved_agrees ops.
